@@ -365,7 +365,7 @@ func enumC06(env *engine.Env, yield func(any) bool) {
 		}
 	}
 	for _, f := range Formats {
-		for _, cls := range []string{"missing-source", "missing-script", "invalid-content-type", "invalid-compression", "dev-full", "dev-full-directory-target", "preexisting-target-missing-source", "preexisting-target-dev-full", "config-missing", "config-unknown-key"} {
+		for _, cls := range []string{"missing-source", "missing-script", "invalid-content-type", "invalid-compression", "dev-full", "dev-full-directory-target", "preexisting-target-missing-source", "preexisting-target-dev-full", "config-missing", "config-unknown-key", "missing-source-directory-target", "missing-source-empty-target", "missing-source-relative-target", "missing-source-stdin-config", "missing-source-default-config"} {
 			if !yield(C06Case{Part: "cli", Format: f, Class: cls}) {
 				return
 			}
@@ -721,6 +721,32 @@ func checkC06CLI(env *engine.Env, c C06Case, out *engine.Outcome, viol func(sig,
 		target = filepath.Join(dir, p.ConventionalFileName(info))
 		os.Symlink("/dev/full", target)
 		args = []string{"package", "-f", cfgPath, "-p", f, "-t", dir}
+	case "missing-source-directory-target", "missing-source-empty-target", "missing-source-relative-target", "missing-source-stdin-config", "missing-source-default-config":
+		// the failing build reached through the other ways of naming target and configuration: whatever file the
+		// command creates on the way (under the conventional name, relative to the working directory) must be gone
+		d["contents"] = []any{map[string]any{"src": t.P("etc/app.conf"), "dst": "/etc/app.conf"}, map[string]any{"src": t.P("no/such/file"), "dst": "/x"}}
+		cfg, _ := parseYAML(Setting{Name: "default"}.doc(nil, t.Root).YAML(), nil)
+		info, _ := cfg.Get(f)
+		info = nfpm.WithDefaults(info)
+		p, _ := nfpm.Get(f)
+		conv := p.ConventionalFileName(info)
+		switch c.Class {
+		case "missing-source-directory-target":
+			os.Mkdir(filepath.Join(work, "outdir"), 0o755)
+			target = filepath.Join(work, "outdir", conv)
+			args = []string{"package", "-f", cfgPath, "-p", f, "-t", filepath.Join(work, "outdir")}
+		case "missing-source-empty-target":
+			target = filepath.Join(work, conv)
+			args = []string{"package", "-f", cfgPath, "-p", f}
+		case "missing-source-relative-target":
+			os.Mkdir(filepath.Join(work, "rel"), 0o755)
+			target = filepath.Join(work, "rel", "out"+extOf[f])
+			args = []string{"package", "-f", "nfpm.yaml", "-p", f, "-t", filepath.Join("rel", "out"+extOf[f])}
+		case "missing-source-stdin-config":
+			args = []string{"package", "-f", "-", "-p", f, "-t", target}
+		case "missing-source-default-config":
+			args = []string{"package", "-p", f, "-t", target}
+		}
 	case "config-missing":
 		args = []string{"package", "-f", filepath.Join(work, "absent.yaml"), "-p", f, "-t", target}
 	case "config-unknown-key":
@@ -737,8 +763,30 @@ func checkC06CLI(env *engine.Env, c C06Case, out *engine.Outcome, viol func(sig,
 	cmd.Dir = work
 	var so, se bytes.Buffer
 	cmd.Stdout, cmd.Stderr = &so, &se
+	if c.Class == "missing-source-stdin-config" {
+		cmd.Stdin = strings.NewReader(d.YAML())
+	}
 	runErr := cmd.Run()
 	_, lerr := os.Lstat(target)
+	// nothing else may be left behind either (a package under another name, a temporary file)
+	if entries, derr := os.ReadDir(work); derr == nil {
+		for _, e := range entries {
+			switch e.Name() {
+			case "nfpm.yaml", "outdir", "rel", filepath.Base(target):
+			default:
+				viol("fault:cli-leaves-other-file:"+c.Class+":"+f, "after the failed run the working directory holds %q", e.Name())
+			}
+		}
+	}
+	for _, sub := range []string{"outdir", "rel"} {
+		if entries, derr := os.ReadDir(filepath.Join(work, sub)); derr == nil {
+			for _, e := range entries {
+				if filepath.Join(work, sub, e.Name()) != target {
+					viol("fault:cli-leaves-other-file:"+c.Class+":"+f, "after the failed run %s/ holds %q", sub, e.Name())
+				}
+			}
+		}
+	}
 	out.Nontrivial = true
 	out.Key = fmt.Sprintf("cli:%s:%s:exit=%v:left=%v", f, c.Class, runErr != nil, lerr == nil)
 	if runErr == nil {
